@@ -26,7 +26,7 @@ package nsqd
 // The single linearisation point of FIN / REQ / TOUCH / timeout: exactly one caller can obtain a
 // given in-flight message, and only its owner; a refused call changes nothing.
 //@ func (c *Channel) popInFlightMessage(clientID int64, id MessageID) (*Message, error)
-//@   props C02 C08 C13
+//@   props C02 C08 C13 C01
 //@   ghostparam gid MessageID
 //@   requires c != nil
 //@   ensures[absent] !atlock(inFlight(c, id)) ==> result1 != nil && result0 == nil
@@ -40,14 +40,15 @@ package nsqd
 //@   ensures[popped-nonnil] result1 == nil ==> result0 != nil
 
 //@ func (c *Channel) pushInFlightMessage(msg *Message) error
-//@   props C02 C08 C13
+//@   props C02 C08 C13 C01
 //@   ghostparam gid MessageID
 //@   requires c != nil && msg != nil
 //@   ensures[duplicate] atlock(inFlight(c, msg.ID)) ==> result != nil && atunlock(c.inFlightMessages[msg.ID]) == atlock(c.inFlightMessages[msg.ID])
 //@   ensures[added] !atlock(inFlight(c, msg.ID)) ==> result == nil && atunlock(inFlight(c, msg.ID)) && atunlock(c.inFlightMessages[msg.ID]) == msg
 //@   ensures[others] gid != msg.ID ==> (atunlock(inFlight(c, gid)) <==> atlock(inFlight(c, gid))) && atunlock(c.inFlightMessages[gid]) == atlock(c.inFlightMessages[gid])
 //@   ensures[len] atunlock(len(c.inFlightMessages)) == atlock(len(c.inFlightMessages)) + (result == nil ? 1 : 0)
-//@   modifies c.inFlightMessages, c.inFlightPQ, mapstore(map[MessageID]*Message)
+//@   modifies c.inFlightMessages, c.inFlightPQ, mapstore(map[MessageID]*Message), lastPushed
+//@   onreturn lastPushed := result == nil ? msg : lastPushed
 
 // The heap half of the bookkeeping.
 //@ func (c *Channel) addToInFlightPQ(msg *Message)
@@ -92,23 +93,25 @@ package nsqd
 // delivery: owner, delivery time and deadline are set from ONE clock reading, then the message is
 // registered (map, then heap). deadline = now + timeout exactly (never early).
 //@ func (c *Channel) StartInFlightTimeout(msg *Message, clientID int64, timeout time.Duration) error
-//@   props C04 C02 C13
+//@   props C04 C02 C13 C01
 //@   requires c != nil && msg != nil
 //@   ensures[owner] msg.clientID == clientID
 //@   ensures[delivery-time] msg.deliveryTS == lastNow
 //@   ensures[deadline] msg.pri == unixNano(lastNow) + timeout
-//@   modifies msg.clientID, msg.deliveryTS, msg.pri, lastNow, c.inFlightMessages, c.inFlightPQ, mapstore(map[MessageID]*Message), elems(*Message), Message.index, deref(inFlightPqueue)
+//@   ensures[registered] result == nil ==> lastPushed == msg
+//@   modifies msg.clientID, msg.deliveryTS, msg.pri, lastNow, lastPushed, c.inFlightMessages, c.inFlightPQ, mapstore(map[MessageID]*Message), elems(*Message), Message.index, deref(inFlightPqueue)
 
 //@ benign (*github.com/nsqio/nsq/internal/quantile.Quantile).Insert
 
 // TOUCH: the new deadline is now + the client's msg timeout, but never beyond max-msg-timeout after
 // the delivery; a refused TOUCH (not in flight / not the owner) returns the error of the map pop.
 //@ func (c *Channel) TouchMessage(clientID int64, id MessageID, clientMsgTimeout time.Duration) error
-//@   props C04 C02
+//@   props C04 C02 C01
 //@   requires c != nil && c.nsqd != nil
 //@   ensures[deadline-capped] result == nil ==> lastPopped != nil && lastPopped.pri ==
 //@        min(unixNano(lastNow) + clientMsgTimeout, unixNano(lastPopped.deliveryTS) + curOpts(c.nsqd).MaxMsgTimeout)
-//@   modifies Message.pri, lastNow, lastPopped, c.inFlightMessages, c.inFlightPQ, mapstore(map[MessageID]*Message), elems(*Message), Message.index, deref(inFlightPqueue)
+//@   ensures[still-owed] result == nil ==> lastPushed == lastPopped
+//@   modifies Message.pri, lastNow, lastPopped, lastPushed, c.inFlightMessages, c.inFlightPQ, mapstore(map[MessageID]*Message), elems(*Message), Message.index, deref(inFlightPqueue)
 //   what was asked and what came back, for the TOUCH handler's contract (ghosts declared in zz_contracts_protocol_consumer_verif.go)
 //@   onreturn touchCalls := touchCalls + 1
 //@   onreturn touchChan := c
